@@ -484,6 +484,29 @@ func init() {
 		setGhostMap(ex, st, "qLimit", q, ex.toTerm(st, args[1], nil))
 		k(st, tv(q), false)
 	}
+	// Apply(fn) returns fn(q)
+	externModels["(*github.com/uptrace/bun.SelectQuery).Apply"] = func(ex *Exec, fr *Frame, callee *ssa.Function, args []Val, st *State, k CallCont) {
+		vc := ex.vc
+		fn := args[1]
+		if fn.K == VTerm && fn.T.Sort == SFunc {
+			if cl, ok := vc.funcConsts[fn.T.S]; ok {
+				fn = cl
+			}
+		}
+		if fn.K == VClosure && fn.Fn != nil {
+			ex.callFunc(fr, fn.Fn, fn.Bind, []Val{args[0]}, nil, st, k)
+			return
+		}
+		gs := &ghostSet{set: map[string]bool{}}
+		for _, t := range vc.prog.funcValuesOfType(callee.Signature.Params().At(0).Type()) {
+			gs.add(vc.prog.mayModifyGhosts(t))
+		}
+		vc.note("bun Apply of an unknown function value at %s: havoc of the heap and of the ghost state its possible targets can reach", ex.where())
+		ex.havocAllG(st, gs)
+		r := vc.fresh("applied", SRef)
+		st.assume(app(">", r.S, "0"))
+		k(st, tv(r), false)
+	}
 	externModels["(*github.com/uptrace/bun.SelectQuery).Scan"] = func(ex *Exec, fr *Frame, callee *ssa.Function, args []Val, st *State, k CallCont) {
 		vc := ex.vc
 		q := ex.toTerm(st, args[0], nil)
